@@ -257,6 +257,10 @@ def compile_check(res, rng, tier):
         ("static-ref-and-owned-same-param", "Debug", "struct S<T: 'static, U, V>(T, &'static T, core::marker::PhantomData<(U, V)>);", "u8, NoFmt, NoFmt"),
         ("static-ref-and-owned-same-param-display", "Display", "#[display(\"{_0} {_1}\")] struct S<T: 'static, U, V>(T, &'static T, core::marker::PhantomData<(U, V)>);", "u8, NoFmt, NoFmt"),
         ("ref-lifetime-param", "Debug", "struct S<'a, T, U, V>(&'a T, core::marker::PhantomData<(U, V)>);", "'static, u8, NoFmt, NoFmt"),
+        # bounds that come from the enum-level (shared) attribute
+        ("shared-attr-positional", "Display", "#[display(\"<{_variant}> {_0}\")] enum S<T, U, V> { #[display(\"a\")] A(T), #[display(\"b\")] B(T, core::marker::PhantomData<(U, V)>) }", "u8, NoFmt, NoFmt"),
+        ("shared-attr-named-hex", "LowerHex", "#[lower_hex(\"{_variant}/{x:x}\")] enum S<T, U, V> { #[lower_hex(\"a\")] A { x: T }, #[lower_hex(\"b\")] B { x: T, p: core::marker::PhantomData<(U, V)> } }", "u8, NoFmt, NoFmt"),
+        ("shared-attr-and-variant-attr", "Display", "#[display(\"{_variant}|{_1:?}\")] enum S<T, U, V> { #[display(\"{_0}\")] A(T, U), #[display(\"b\")] B(u8, U, core::marker::PhantomData<V>) }", "u8, u8, NoFmt"),
     ]
     for j, (key, derive, src, inst) in enumerate(fixed):
         i = 100000 + j
